@@ -338,7 +338,7 @@ func (e *c07env) runSchedule(t *tracer, sc scenario, prefix []int, schedID int, 
 				t.emit(map[string]any{"ev": "Commit", "t": th.id, "op": ti.op.String()}) // uninstrumented build: the call is the commit point
 			}
 			t.emit(map[string]any{"ev": "End", "t": th.id, "kind": ti.kind, "req": ti.req, "op": ti.op.String(), "fp": ti.result, "err": ti.err,
-				"gates": strings.Join(th.gates, ","), "nowrite": nowrite})
+				"gates": strings.Join(th.gates, ","), "nowrite": nowrite, "gl": append([]string{}, th.gates...), "lockchk": mutexGates})
 		}
 		step++
 	}
@@ -362,7 +362,7 @@ func (e *c07env) runSchedule(t *tracer, sc scenario, prefix []int, schedID int, 
 			if op.Kind != "config" && !errd {
 				t.emit(map[string]any{"ev": "Commit", "t": id, "op": op.String()})
 			}
-			t.emit(map[string]any{"ev": "End", "t": id, "kind": op.Kind, "req": 0, "op": op.String(), "fp": fp, "err": errd, "gates": "", "nowrite": false})
+			t.emit(map[string]any{"ev": "End", "t": id, "kind": op.Kind, "req": 0, "op": op.String(), "fp": fp, "err": errd, "gates": "", "nowrite": false, "gl": []string{}, "lockchk": false})
 		}
 		for i, op := range sc.Post {
 			emitOp(fmt.Sprintf("p%d", i), op)
@@ -379,7 +379,7 @@ func (e *c07env) runSchedule(t *tracer, sc scenario, prefix []int, schedID int, 
 					id := fmt.Sprintf("%s%d", pfx, k)
 					t.emit(map[string]any{"ev": "Begin", "t": id, "kind": "request", "req": k, "op": "config"})
 					sv := serve(m, newReq(rs.Method, cloneHeader(rs.H)), nil)
-					t.emit(map[string]any{"ev": "End", "t": id, "kind": "request", "req": k, "op": "config", "fp": respFP(sv.w, sv.invoked), "err": false, "gates": "", "nowrite": false})
+					t.emit(map[string]any{"ev": "End", "t": id, "kind": "request", "req": k, "op": "config", "fp": respFP(sv.w, sv.invoked), "err": false, "gates": "", "nowrite": false, "gl": []string{}, "lockchk": false})
 				}
 			}
 		}
